@@ -18,7 +18,10 @@ REGISTRY = {
             'parser/serializer models and round-trip theorem - that for canonical inputs every result is canonical and parses back '
             'to itself, that the string the Python builds (serialize_start + piece texts + serialize_end) is the serialization of '
             'the assembled result and re-parses to it, and that the literal text-level model of the annotation methods and of the '
-            'string functions of sequence/combinatoric.py returns exactly these results; the models are tied to /repo by list-exact '
+            'string functions of sequence/combinatoric.py returns exactly these results; outside canon: the same with '
+            'canon(dropEmpty a) (empty-but-present labile/static/isotope/C-term/adduct lists), every result in normal form for '
+            'every input, kernel-checked counter-examples (empty N-term/unknown list: no result parses; multiplier < 1 comes '
+            'back as 1) replayed on the implementation; the models are tied to /repo by list-exact '
             'correspondence on generated annotations (dict order shuffled, API histories) x every size and by text-exact '
             'correspondence of the string functions; the oracle evaluates the property on the implementation',
     'note': 'trusted: Lean kernel, axioms propext/Classical.choice/Quot.sound, the correspondence harness; the parser/serializer '
@@ -147,7 +150,8 @@ def run(chk):
         'modelled: ProFormaAnnotation.permutations/product/combinations/combinations_with_replacement, split, slice(i,i+1), '
         'pop_mods + internal restore, own itertools enumerations; the literal text pipeline (serialize start/pieces/end, '
         'concatenate, parse) on the C01 parser/serializer models, proved equal to the annotation-level assemble for canonical inputs',
-        'correspondence domain (expandDomain): present mod lists non-empty, multipliers >= 1, adducts only with a charge',
+        'correspondence domain of the annotation-level model (expandDomain): present mod lists non-empty, multipliers >= 1, '
+        'adducts only with a charge; outside it the literal text-level model is compared on the raw fields (stage outside_domain)',
     ]
     chk.rule = ('generated annotations of length 1..6 (all modification kinds except intervals) x size in None,1..n,n+1,n+3 x '
                 'four operations, always on copies; non-trivial = at least 2 results and at least one residue modification or global; '
@@ -264,6 +268,62 @@ def run(chk):
             return 'ERR:' + type(e).__name__
     chk.correspond('combinatoric_py_text_exact', DRV, scases, lambda c: f's_{c[0]}\t{annot.esc(c[1])}\t{c[2]}', s_impl,
                    nontrivial_fn=lambda c, im: im.count('~') >= 1)
+
+    # outside the domain (round 5): the literal text-level model on annotations whose private fields hold what no text can
+    # produce - empty-but-present lists, multipliers < 1, an empty internal entry, adducts without a charge - against the
+    # implementation on the same fields. An empty-but-present N-term / unknown-position list makes every result fail to parse
+    # (theorems empty_nterm_does_not_parse / empty_unknown_does_not_parse, replayed here as the first two cases).
+    FIELDS = ['_labile_mods', '_static_mods', '_isotope_mods', '_cterm_mods', '_charge_adducts', '_nterm_mods', '_unknown_mods']
+    xcases = [('perm', 'PET|N|N|N|N|L|N|D1=i3^1|N|None|N', 2), ('comb', 'PET|N|N|N|L|N|N|D1=i3^1|N|None|N', 2),
+              ('comb', 'PET|N|N|N|N|N|N|D1=i3^0;2=sPhospho^-2|N|2|N', 2)]
+    for _ in range(120 if tier == 'quick' else 1200):
+        a = gen_case(rng, 4)
+        kinds = []
+        for f in FIELDS:
+            if getattr(a, f) is None and rng.random() < (0.3 if f in FIELDS[:5] else 0.08):
+                setattr(a, f, [])
+                kinds.append('empty' + f)
+        lists = [getattr(a, f) for f in FIELDS if getattr(a, f)] + list((a._internal_mods or {}).values())
+        for l in lists:
+            for m in l:
+                if rng.random() < 0.3:
+                    m.mult = rng.choice([0, -1, -3])
+                    kinds.append('mult_below_1')
+        if rng.random() < 0.2:
+            a._internal_mods = dict(a._internal_mods or {})
+            a._internal_mods.setdefault(rng.randrange(len(a)), [])
+            kinds.append('empty_internal_entry')
+        if a._internal_mods is None and rng.random() < 0.2:
+            a._internal_mods = {}
+            kinds.append('empty_internal_dict')
+        if a._charge_adducts and rng.random() < 0.3:
+            a._charge = None
+            kinds.append('adducts_without_charge')
+        if not kinds:
+            continue
+        for kd in set(kinds):
+            chk.count('outside:' + kd)
+        d = annot.dump(a, sort_internal=False)
+        n = len(a)
+        for k in (None, 1, 2):
+            op = rng.choice(OPS)
+            if expected_count(op, n, n if k is None else k) <= 300:
+                xcases.append((op, d, k))
+
+    def t_impl(c):
+        op, d, k = c
+        a = annot.undump(d)
+        try:
+            return 'T' + '~'.join(annot.dump(r) for r in getattr(a, impl_fn(op))(k))
+        except Exception as e:  # noqa
+            return 'ERR:' + type(e).__name__
+
+    def t_cmp(im, m):
+        if m.startswith('ERR:') or im.startswith('ERR:'):
+            return im == m
+        return m.startswith('T') and im[1:] == ('~'.join(annot.canon_dump(x) for x in m[1:].split('~')) if m[1:] else '')
+    chk.correspond('outside_domain', DRV, xcases, lambda c: f't_{c[0]}\t{c[1]}\t{c[2]}', t_impl, compare=t_cmp,
+                   nontrivial_fn=lambda c, im: im.startswith('ERR:') or im.count('~') >= 1)
 
     # the bare enumerations against the real itertools on integer lists (repeated elements included)
     its = []
